@@ -72,6 +72,14 @@ def do_import(prop, src, only=None, rename=None):
             if os.path.exists(os.path.join(d, f)):
                 shutil.copy(os.path.join(d, f), os.path.join(dst, f))
         m = load_meta(n)
+        pf = os.path.join(d, "property.txt")
+        if os.path.exists(pf):
+            # round 3: one agent per cluster of properties, the change names its property
+            import re
+            mm = re.search(r"C\d\d", open(pf).read())
+            if mm:
+                m["property"] = mm.group(0)
+                m["breaks"] = mm.group(0)
         m.setdefault("property", prop)
         m.setdefault("breaks", prop)
         m.setdefault("origin", "sub-agent given only the text of %s and a scratch worktree" % prop)
